@@ -97,8 +97,46 @@ def gen_decimal(R):
     return sign + mant + ex, ws
 
 
+# ---- what a suffix denotes, independently of the table: the SCPI-99 multiplier prefixes (vol. 1, 7.1: M is mega for HZ and OHM,
+# milli otherwise) applied to another row of the same unit, and the few non-decimal relations between units of the same kind
+PREFIX = {'EX': 1e18, 'PE': 1e15, 'T': 1e12, 'G': 1e9, 'MA': 1e6, 'K': 1e3, 'M': 1e-3, 'U': 1e-6, 'N': 1e-9, 'P': 1e-12, 'F': 1e-15, 'A': 1e-18}
+FIXED = {'MNT': ('DEG', 1.0 / 60), 'SEC': ('DEG', 1.0 / 3600), 'MIN': ('S', 60.0), 'HR': ('S', 3600.0), 'PCT': (None, 0.01), 'PPM': (None, 1e-6),
+         'TNE': ('KG', 1000.0), 'G': ('KG', 1e-3)}
+
+
+def lit_name(lit):
+    t = lit.decode('latin1') if isinstance(lit, bytes) else lit
+    i = len(t)
+    while i > 0 and (t[i - 1].isalpha()):
+        i -= 1
+    return t[i:].upper()
+
+
+def unit_reference(name, uid, byname):
+    """expected multiplier of row `name`, or None when no rule applies; byname: NAME -> (uid, multiplier as float)"""
+    if name in FIXED:
+        base, f = FIXED[name]
+        if base is None:
+            return f
+        if base in byname and byname[base][0] == uid:
+            return f * byname[base][1] if name != 'G' else f
+        return None
+    cands = []
+    for p, f in PREFIX.items():
+        if name.startswith(p) and len(name) > len(p):
+            rest = name[len(p):]
+            if rest in byname and byname[rest][0] == uid and rest not in FIXED:
+                if p == 'M' and rest in ('HZ', 'OHM'):
+                    f = 1e6
+                cands.append(f * byname[rest][1])
+    if not cands:
+        return None
+    return cands[0] if len(set(cands)) == 1 else None
+
+
 def streams(tier, rng):
     us, sp = units_table()
+    byname_all = {n: (uid, struct.unpack('<d', struct.pack('<Q', m))[0]) for n, uid, m in us}
     cases, info = [], {}
 
     def add(lit, script, kind, extra=None):
@@ -233,6 +271,12 @@ def streams(tier, rng):
             return []
         if kind == 'unit':
             v, uid, mult = extra
+            ref = unit_reference(lit_name(lit), uid, byname_all)
+            tab = struct.unpack('<d', struct.pack('<Q', mult))[0]
+            if ref is not None and abs(ref - tab) > 1e-12 * abs(ref):
+                return [('unit-multiplier', 'literal %r: the unit table gives multiplier %r, the suffix denotes %r (SCPI-99 suffix multipliers / unit definitions)' % (lit, tab, ref))]
+            if not (tab > 0.0) or tab == float('inf'):
+                return [('unit-multiplier', 'literal %r: the unit table gives multiplier %r; a unit multiplier is a positive finite number' % (lit, tab))]
             x = float(v) * struct.unpack('<d', struct.pack('<Q', mult))[0]
             want = [0, struct.unpack('<Q', struct.pack('<d', x))[0], uid, 10]
             if not ok or vals != want:
